@@ -204,6 +204,60 @@ def run_driver(lines, timeout=3000):
     return out
 
 
+def source_literals(pid):
+    """integer literals (and their neighbours) appearing in the source files the property is anchored in:
+    inputs for the literal-directed probe (catches `if x == <magic>` style changes that random inputs miss)"""
+    import ast
+    lits = set()
+    try:
+        props = [json.loads(l) for l in open(os.path.join(VERIF, "properties.jsonl"))]
+        files = next(p["anchors"]["files"] for p in props if p["id"] == pid)
+    except Exception:
+        files = []
+    repo = os.environ.get("VERIF_REPO", "/repo")
+    for f in files:
+        try:
+            tree = ast.parse(open(os.path.join(repo, f), encoding="utf-8").read())
+        except Exception:
+            continue
+        if f.endswith("bip39_wordlist/__init__.py"):
+            continue
+        for n in ast.walk(tree):
+            if isinstance(n, ast.Constant) and isinstance(n.value, int) and not isinstance(n.value, bool):
+                lits.add(n.value)
+            if isinstance(n, ast.BinOp) and isinstance(n.op, ast.Pow) and isinstance(n.left, ast.Constant) \
+                    and isinstance(n.right, ast.Constant) and isinstance(n.left.value, int) \
+                    and isinstance(n.right.value, int) and 0 <= n.right.value <= 300 and abs(n.left.value) <= 300:
+                lits.add(n.left.value ** n.right.value)
+    out = set()
+    for v in lits:
+        for d in (-1, 0, 1):
+            if v + d >= 0:
+                out.add(v + d)
+    return sorted(out)[:400]
+
+
+def literal_probe(mod, pid, impl, known):
+    """run the property's operations at the source's own literals; returns oracle failures"""
+    fn = getattr(mod, "literal_ops", None)
+    if fn is None:
+        return [], 0
+    fails = []
+    n = 0
+    for lit in source_literals(pid):
+        for line in fn(lit):
+            n += 1
+            body = line.split(" #")[0]
+            o = impl.run(body)
+            try:
+                msg = mod.oracle(line, o)
+            except Exception:
+                continue
+            if msg and not mod.known_match(line, o, msg, known):
+                fails.append((line, msg))
+    return fails, n
+
+
 def load_known(pid):
     p = os.path.join(VERIF, "known_findings.json")
     if not os.path.exists(p):
@@ -360,6 +414,10 @@ def decide(pid, tier, seed, replay, t0):
                 failures.append((l, msg))
     # ---- something broke: search harder for a concrete failing input
     searched = 0
+    probed = 0
+    if tier == "thorough" or ((problems or disagreements) and not failures):
+        lf, probed = literal_probe(mod, pid, impl, known)
+        failures += lf
     if (problems or disagreements) and not failures:
         ds = getattr(mod, "deep_search", None)
         cand = [d["line"] for d in disagreements]
@@ -389,7 +447,7 @@ def decide(pid, tier, seed, replay, t0):
         "traces_validated_against_impl": len(lines) if model_out is not None else 0,
         "disagreements": len(disagreements), "fixed_findings_replayed": fixed_checked,
         "known_findings_reported": len(set(known_lines)), "build_s": info.get("build_s"),
-        "proof_problems": problems, "deep_search_candidates": searched,
+        "proof_problems": problems, "deep_search_candidates": searched, "literal_probe_cases": probed,
         "exhaustive": False,
     }
     coverage.update(extra_info)
